@@ -20,7 +20,7 @@ import (
 	"github.com/flamego/flamego/verifharness/internal/rt"
 )
 
-const rule = "case = a history: 0..5 registrations the statement obliges the router to accept, then one candidate made by a named operator (valid, break-grammar, unknown-method, routes-list = declared through Routes(path, list) with well- and ill-formed comma lists, question-sibling = siblings that differ in a '?' inside the expression or in the optional mark only, repeat, repeat-short-form, plain-after-optional, optional-after-plain, dup-bind-across, dup-bind-inside, inner-optional, inner-empty, second-mid-matchall, matchall-clash, bad-expression, single-optional, metachar-literal; declared flat, or with its text cut in front of 1..2 of its slashes into nested Group calls), then requests built from instances of every accepted route, then optionally 1..2 further well-formed registrations that conflict with nothing and requests for them and for the earlier routes, then optionally 1..2 registrations that are ill-formed whatever came before (each must be refused), and every request once more. " +
+const rule = "case = a history: 0..5 registrations the statement obliges the router to accept (in one case of four every other one of them with a header constraint that all requests satisfy), then one candidate made by a named operator (valid, break-grammar, unknown-method, routes-list = declared through Routes(path, list) with well- and ill-formed comma lists, question-sibling = siblings that differ in a '?' inside the expression or in the optional mark only, repeat, repeat-short-form, plain-after-optional, optional-after-plain, dup-bind-across, dup-bind-inside, inner-optional, inner-empty, second-mid-matchall, matchall-clash, bad-expression, single-optional, metachar-literal; declared flat, or with its text cut in front of 1..2 of its slashes into nested Group calls), then requests built from instances of every accepted route, then optionally 1..2 further well-formed registrations that conflict with nothing and requests for them and for the earlier routes, then optionally 1..2 registrations that are ill-formed whatever came before (each must be refused), and every request once more. " +
 	"Oracle: the registration validity model (MUST_REJECT / MUST_ACCEPT / EITHER from the clauses of C08) against 'did Flame.Route panic' and 'did route.AddRoute fail'; accepted routes must serve all their instances (long and short form) through a route that admits them - the reference matcher's winner; no request may panic whatever happened before. " +
 	"non-trivial = a MUST_REJECT candidate after >=1 accepted route, or an accepted candidate that is optional, match-all, has a user group or a metacharacter literal; distinct by case text"
 
@@ -55,6 +55,10 @@ type Case struct {
 	// does not compile), attempted at the very end; every request is then
 	// served once more.
 	Last []rt.Reg `json:"ill_formed_at_the_end,omitempty"`
+	// Constrained: every other route of the accepted prefix is given a header
+	// constraint (a header must be present) which every request of the case
+	// satisfies: nothing about what is registered changes.
+	Constrained bool `json:"prefix_routes_header_constrained,omitempty"`
 }
 
 // candidateMethods interprets the method field of the candidate: the known
@@ -137,6 +141,26 @@ func verdictFor(c Case) (model.Verdict, string) {
 }
 
 func checkCase(c Case) evid.Outcome {
+	if c.Constrained {
+		c.Constrained = false
+		c.Prefix = append([]rt.Reg(nil), c.Prefix...)
+		for i := range c.Prefix {
+			if i%2 == 0 {
+				c.Prefix[i].H = []string{"X-Always", ""}
+			}
+		}
+		with := func(qs []rt.Req) []rt.Req {
+			out := append([]rt.Req(nil), qs...)
+			for i := range out {
+				out[i].H = append(append([][2]string(nil), out[i].H...), [2]string{"X-Always", "1"})
+			}
+			return out
+		}
+		c.Reqs, c.AfterReqs = with(c.Reqs), with(c.AfterReqs)
+		out := checkCase(c)
+		out.Classes = append(out.Classes, "prefix-routes-header-constrained")
+		return out
+	}
 	out := evid.Outcome{Sub: 1 + len(c.Reqs)}
 	verdict, why := verdictFor(c)
 	out.Classes = append(out.Classes, "op:"+c.Op, "verdict:"+verdict.String())
@@ -466,7 +490,11 @@ func treeRegister(c Case) (err error) {
 func show(regs []rt.Reg) string {
 	var parts []string
 	for _, g := range regs {
-		parts = append(parts, g.M+" "+g.R)
+		h := ""
+		if len(g.H) > 0 {
+			h = fmt.Sprintf(" .Headers(%s)", strings.Join(g.H, ","))
+		}
+		parts = append(parts, g.M+" "+g.R+h)
 	}
 	return "[" + strings.Join(parts, " ; ") + "]"
 }
@@ -942,6 +970,7 @@ func genCase(t *rapid.T) Case {
 			}
 		}
 	}
+	c.Constrained = len(c.Prefix) > 0 && rapid.IntRange(0, 3).Draw(t, "constrained") == 0
 	return c
 }
 
